@@ -1,7 +1,7 @@
-import Mixin.Model.ConsensusCodes
+import Mixin.Model.ConsensusChainCodes
 /-! Expectations on the regenerated facts that the C28 model and theorems rely on. -/
 namespace Mixin.Facts.ExpectedC28
-open Mixin.Facts Mixin.Consensus
+open Mixin.Facts Mixin.ConsensusChain
 
 /-- case table of `IsSnapshotBatchable`: four fall-through classes, `default` returns false -/
 theorem batchable_table :
